@@ -103,6 +103,12 @@ pub enum Edit {
     /// set_object directly on the new revision
     Set(u16, AObj),
     Add(AObj),
+    /// turn two existing objects into a page-like dictionary and its resources: `direct` = /Resources is a direct
+    /// dictionary of the page, otherwise a reference to the second object
+    InstallPage(u16, u16, bool),
+    /// IncrementalDocument::add_xobject (false) / add_graphics_state (true) under the names N<k> on the installed page
+    /// (of this or an earlier revision), each pointing at an existing object
+    AddResources(Vec<(bool, u8)>, u16),
 }
 
 #[derive(Clone, Debug, Serialize, Deserialize)]
@@ -111,6 +117,134 @@ pub struct IncCase {
     /// base bytes produced by lopdf's own save (true) or by the reference writer (false)
     pub base_by_lopdf: bool,
     pub updates: Vec<Vec<Edit>>,
+}
+
+// ---------------- Part A': the same histories, encrypted by the reference security handler ----------------
+
+#[derive(Clone, Debug, Serialize, Deserialize)]
+pub struct EncHist {
+    pub f: WFile,
+    pub cfg: super::cryptgen::Config,
+    pub seed: u64,
+}
+
+pub struct EncRendered {
+    /// the history without the encryption dictionary (what a reader must see after decrypting)
+    pub plain: WFile,
+    /// the history as written (with the encryption dictionary object and /Encrypt, /ID in every trailer)
+    pub f: WFile,
+    pub cfg: super::cryptgen::Config,
+    pub out: writer::WOutput,
+    /// unencrypted rendering with the same layout
+    pub plain_out: writer::WOutput,
+}
+
+/// Render an encrypted history; None = nothing to render (no revision left after sanitising)
+pub fn render_encrypted(case: &EncHist, rep: &mut CaseReport) -> Result<Option<EncRendered>, Violation> {
+    let mut plain = prepare(&case.f, rep);
+    if plain.revisions.is_empty() {
+        return Ok(None);
+    }
+    if plain.objstm {
+        plain.xref_stream = true;
+    }
+    let mut cfg = case.cfg.clone();
+    // metadata streams and per-stream Crypt filters are C05/C06 topics; here the handler is the constant part
+    cfg.encrypt_metadata = true;
+    if cfg.revision() <= 4 && cfg.owner_pw.is_empty() {
+        cfg.owner_pw = cfg.user_pw.clone();
+    }
+    for r in plain.revisions.iter_mut() {
+        for (_, _, o) in r.objects.iter_mut() {
+            if let AObj::Stream(d, _) = o {
+                // a stream's own /Filter /Crypt or /Type /Metadata would select another cipher: not generated here
+                d.retain(|(k, v)| !(k.0 == b"Filter" || k.0 == b"DecodeParms" || (k.0 == b"Type" && matches!(v, AObj::Name(n) if n.0 == b"Metadata"))));
+            }
+        }
+    }
+    let h = super::c06::ref_handler(&cfg, case.seed, false).map_err(|e| viol!("harness-ref-encrypt", "{}", e))?;
+    let enc_num = plain.revisions.iter().flat_map(|r| r.objects.iter().map(|o| o.0)).max().unwrap_or(0) + 1;
+    let id = AObj::Array(vec![AObj::Str(cfg.id0.clone(), true), AObj::Str(cfg.id0.clone(), true)]);
+    let mut f = plain.clone();
+    f.revisions[0].objects.push((enc_num, 0, AObj::Dict(h.encrypt_dict.clone())));
+    for (fr, pr) in f.revisions.iter_mut().zip(plain.revisions.iter_mut()) {
+        fr.trailer.retain(|(k, _)| k.0 != b"Encrypt" && k.0 != b"ID");
+        pr.trailer.retain(|(k, _)| k.0 != b"Encrypt" && k.0 != b"ID");
+        fr.trailer.push((B::from("Encrypt"), AObj::Ref(enc_num, 0)));
+        fr.trailer.push((B::from("ID"), id.clone()));
+        pr.trailer.push((B::from("ID"), id.clone()));
+    }
+    // the unencrypted rendering of the same file (same tape) validates the writer's structure through STRICT-R
+    let ident = |_n: u32, _g: u16, o: &AObj| o.clone();
+    let plain_out = writer::write_with(&f, Some(&writer::WEnc { f: &ident, skip: [enc_num].into_iter().collect(), length_in_objstm: false }));
+    // (files with lenient-only constructs, C08, are outside the strict reader's domain)
+    for k in 0..f.revisions.len() {
+        if f.quirks == 0 {
+            selfcheck(&f, &plain_out, &plain_out.bytes[..plain_out.revision_ends[k]], k)?;
+        }
+    }
+    let failed = std::cell::RefCell::new(None);
+    let encf = |n: u32, g: u16, o: &AObj| match h.encrypt_object(n, g, o) {
+        Ok(x) => x,
+        Err(e) => {
+            *failed.borrow_mut() = Some(e);
+            o.clone()
+        }
+    };
+    let out = writer::write_with(&f, Some(&writer::WEnc { f: &encf, skip: [enc_num].into_iter().collect(), length_in_objstm: false }));
+    if let Some(e) = failed.borrow_mut().take() {
+        return Err(viol!("harness-ref-encrypt", "{}", e));
+    }
+    Ok(Some(EncRendered { plain, f, cfg, out, plain_out }))
+}
+
+pub fn check_foreign_encrypted(case: &EncHist) -> Verdict {
+    let mut rep = CaseReport::new();
+    let Some(EncRendered { plain, f, cfg, out, plain_out }) = render_encrypted(case, &mut rep)? else { return Ok(rep) };
+    let mut overridden = false;
+    let mut objstm_over_objstm = false;
+    for k in 0..f.revisions.len() {
+        let bytes = &out.bytes[..out.revision_ends[k]];
+        let what = format!("encrypted file, prefix ending at revision {} of {}", k, f.revisions.len() - 1);
+        let ctx = |v: Violation| {
+            let kind = if k + 1 == f.revisions.len() { "final-view-differs" } else { "prefix-view-differs" };
+            Violation::new(
+                if v.kind == "load-error" { "load-error" } else { kind },
+                format!("{} [{}]\nhandler R{} user password {:?}\nfeatures {:?}\nunencrypted rendering of the same file:\n{}", v.detail, v.kind, cfg.revision(), cfg.user_pw, out.features, show_bytes(&plain_out.bytes[..plain_out.revision_ends[k]], 5000)),
+            )
+        };
+        let mut doc = no_panic("Document::load_mem", || Document::load_mem(bytes))?.map_err(|e| ctx(viol!("load-error", "{}: load_mem rejects the file: {:?}", what, e)))?;
+        if doc.is_encrypted() {
+            no_panic("decrypt", || doc.decrypt(&cfg.user_pw))?.map_err(|e| ctx(viol!("load-error", "{}: decrypt with the user password fails: {:?}", what, e)))?;
+        }
+        let model = model_view(&plain, &out, k);
+        compare_loaded(&model, &structural_ids(&out, k), &doc, &what).map_err(ctx)?;
+        compare_trailer_w(&plain.revisions[k].trailer, &doc, &what).map_err(ctx)?;
+        if k > 0 {
+            for (n, _, _) in &plain.revisions[k].objects {
+                for j in 0..k {
+                    if let Some(prev_place) = out.placement[j].get(n) {
+                        overridden = true;
+                        objstm_over_objstm |= prev_place.is_some() && out.placement[k].get(n).cloned().flatten().is_some();
+                    }
+                }
+            }
+        }
+    }
+    rep.label(match cfg.revision() {
+        2 => "R2",
+        3 => "R3",
+        4 => "R4",
+        5 => "R5",
+        _ => "R6",
+    });
+    rep.label_if(out.features.contains("objstm"), "encrypted-object-streams");
+    rep.label_if(cfg.user_pw.is_empty(), "empty-user-password");
+    rep.label_if(f.revisions.len() >= 2, "update-revision");
+    rep.label_if(overridden, "object-overridden");
+    rep.label_if(objstm_over_objstm, "objstm-over-objstm");
+    rep.nontrivial = f.revisions.len() >= 2 && overridden;
+    Ok(rep)
 }
 
 fn sanitise_obj(o: AObj, rep: &mut CaseReport) -> AObj {
@@ -140,6 +274,7 @@ pub fn check_incremental(case: &IncCase) -> Verdict {
     };
     let mut n_updates = 0;
     let mut touched_any = false;
+    let mut resources_added = false;
     for (ui, edits) in case.updates.iter().enumerate() {
         let what = format!("update #{}", ui + 1);
         let prev_sd = strict::read(&bytes).map_err(|e| viol!("harness-strict-rejects-previous", "rule {}: {}", e.rule, e.msg))?;
@@ -206,6 +341,81 @@ pub fn check_incremental(case: &IncCase) -> Verdict {
                     inc.new_document.set_object(id, new.to_object());
                     edited.insert(id, new);
                     touched_any = true;
+                }
+                Edit::InstallPage(ps, rs, direct) => {
+                    if ids.len() < 2 {
+                        continue;
+                    }
+                    let p = ids[(*ps as usize * ids.len()) >> 16];
+                    let r = ids[(*rs as usize * ids.len()) >> 16];
+                    // one installed page per file keeps the model simple
+                    let installed = model.values().chain(edited.values()).any(|o| o.get("VPage").is_some());
+                    if p == r || installed {
+                        continue;
+                    }
+                    let res = AObj::dict(vec![("Font", AObj::dict(vec![]))]);
+                    let page = AObj::dict(vec![("VPage", AObj::Int(1)), ("Resources", if *direct { res.clone() } else { AObj::Ref(r.0, r.1) })]);
+                    inc.new_document.set_object(p, page.to_object());
+                    edited.insert(p, page);
+                    if !*direct {
+                        inc.new_document.set_object(r, res.to_object());
+                        edited.insert(r, res);
+                    }
+                }
+                Edit::AddResources(items, ts) => {
+                    let current = |id: &(u32, u16)| edited.get(id).or_else(|| model.get(id)).cloned();
+                    let Some(p) = ids.iter().chain(edited.keys()).find(|id| current(id).map(|o| o.get("VPage").is_some()).unwrap_or(false)).cloned() else { continue };
+                    let target = ids[(*ts as usize * ids.len()) >> 16];
+                    let page = current(&p).unwrap();
+                    let res_ref = match page.get("Resources") {
+                        Some(AObj::Ref(n, g)) => Some((*n, *g)),
+                        _ => None,
+                    };
+                    // the object that carries the resource dictionaries, as the model sees it now
+                    let mut holder = match res_ref {
+                        Some(r) => match current(&r) {
+                            Some(o @ AObj::Dict(_)) => o,
+                            _ => continue,
+                        },
+                        None => page.clone(),
+                    };
+                    for (gs, k) in items {
+                        let name = format!("N{}", k % 4);
+                        let r = if *gs {
+                            no_panic("IncrementalDocument::add_graphics_state", || inc.add_graphics_state(p, name.as_bytes().to_vec(), target))?
+                        } else {
+                            no_panic("IncrementalDocument::add_xobject", || inc.add_xobject(p, name.as_bytes().to_vec(), target))?
+                        };
+                        r.map_err(|er| viol!("edit-error", "{}: adding resource {} to the page {:?} fails: {:?}", what, name, p, er))?;
+                        let key = if *gs { "ExtGState" } else { "XObject" };
+                        let resources: &mut AObj = if res_ref.is_some() {
+                            &mut holder
+                        } else if let AObj::Dict(d) = &mut holder {
+                            &mut d.iter_mut().find(|(k2, _)| k2.0 == b"Resources").unwrap().1
+                        } else {
+                            unreachable!()
+                        };
+                        if let AObj::Dict(rd) = resources {
+                            if !rd.iter().any(|(k2, _)| k2.0 == key.as_bytes()) {
+                                rd.push((B::from(key), AObj::dict(vec![])));
+                            }
+                            if let Some((_, AObj::Dict(sub))) = rd.iter_mut().find(|(k2, _)| k2.0 == key.as_bytes()) {
+                                sub.retain(|(k2, _)| k2.0 != name.as_bytes());
+                                sub.push((B(name.clone().into_bytes()), AObj::Ref(target.0, target.1)));
+                            }
+                        }
+                        resources_added = true;
+                    }
+                    // the page is cloned into the new revision in any case; the resources object when it is separate
+                    match res_ref {
+                        Some(r) => {
+                            edited.insert(r, holder);
+                            edited.insert(p, page);
+                        }
+                        None => {
+                            edited.insert(p, holder);
+                        }
+                    }
                 }
                 Edit::Add(obj) => {
                     let mut o = obj.clone();
@@ -281,6 +491,7 @@ pub fn check_incremental(case: &IncCase) -> Verdict {
     rep.label_if(!base.xref_stream, "xref-table");
     rep.label_if(n_updates >= 2, "chained-updates");
     rep.label_if(touched_any, "clone-and-mutate");
+    rep.label_if(resources_added, "resources-added-through-the-update-api");
     rep.nontrivial = n_updates >= 1 && model.len() >= 3;
     Ok(rep)
 }
@@ -291,6 +502,8 @@ pub fn inc_strategy(o: WOpts) -> BoxedStrategy<IncCase> {
         any::<u16>().prop_map(Edit::CloneAndTouch),
         (any::<u16>(), g::top_object(o.doc.obj)).prop_map(|(s, ob)| Edit::Set(s, ob)),
         g::top_object(o.doc.obj).prop_map(Edit::Add),
+        (any::<u16>(), any::<u16>(), any::<bool>()).prop_map(|(p, r, d)| Edit::InstallPage(p, r, d)),
+        (vec((any::<bool>(), 0u8..4), 1..4), any::<u16>()).prop_map(|(items, t)| Edit::AddResources(items, t)),
     ];
     (wfile_strategy(o), any::<bool>(), vec(vec(edit, 1..5), 1..=4))
         .prop_map(|(base, base_by_lopdf, updates)| IncCase { base, base_by_lopdf, updates })
@@ -313,6 +526,16 @@ pub fn run(run: &mut Run) {
     let o = opts_a(run);
     let n = run.tier.pick(5_000, 200_000);
     run.campaign("foreign-histories", || wfile_strategy(o), n, check_foreign, |_c, _v| None);
+    // the same histories encrypted by the reference handler while writing (objects inside object streams stay plain,
+    // their containers are encrypted): after decrypting with the user password the latest revision must win as well
+    let ne = run.tier.pick(1_500, 60_000);
+    run.campaign(
+        "encrypted-foreign-histories",
+        || (wfile_strategy(o), super::cryptgen::config_strategy(), any::<u64>()).prop_map(|(f, cfg, seed)| EncHist { f, cfg, seed }),
+        ne,
+        check_foreign_encrypted,
+        |_c, _v| None,
+    );
     let mut ob = o;
     ob.max_revisions = 1;
     ob.junk = !run.finding_open("C07-junk-prefix-incremental");
@@ -323,6 +546,7 @@ pub fn run(run: &mut Run) {
 pub fn replay(file: &Value) -> Result<Verdict, String> {
     match file.get("campaign").and_then(|c| c.as_str()).unwrap_or("foreign-histories") {
         "lopdf-incremental" => Ok(check_incremental(&replay_case::<IncCase>(file)?)),
+        "encrypted-foreign-histories" => Ok(check_foreign_encrypted(&replay_case::<EncHist>(file)?)),
         _ => Ok(check_foreign(&replay_case::<WFile>(file)?)),
     }
 }
